@@ -22,6 +22,7 @@ ASSUMPTIONS = ['double_quotes=chars (default)', 'only agreement between layouts,
 
 LENS = list(range(0, 18)) + [23, 24, 25, 31, 32, 33, 63, 64, 65]
 LONG = [255, 256, 257]
+BOUNDARY_CHARS = ['\x01', 'a', '\x7f', '\x80', 'é', '\u07ff', '\u0800', '日', '\uffff', '\U00010000', '\U0001F600', '\U0003FFFF', '\U00040000', '\U00100000', '\U0010FFFF']
 SETUP = ":- dynamic(c20d/1).\n"
 
 
@@ -31,7 +32,7 @@ def gen_text(rng, i):
     if kind == 0:
         return ''.join(rng.choice('abcxyz') for _ in range(n))
     if kind == 1:
-        return ''.join(rng.choice(['a', 'b', 'é', 'ß', '日', '本', '\U0001F600', 'z']) for _ in range(n))
+        return ''.join(rng.choice(['a', 'b', 'é', 'ß', '日', '本', '\U0001F600', 'z', '\U00100000']) for _ in range(n))
     if kind == 2 and n > 0:
         s = [rng.choice('abc') for _ in range(n)]
         for pos in set([0, n // 2, n - 1][:rng.randint(1, 3)]):
@@ -91,6 +92,13 @@ def operations(s, rng):
         k = rng.randrange(n)
         O['nth0'] = ('nth0(%d, L, R)' % k, mkatom(s[k]))
         O['compare-changed'] = ('compare(R, L, %s)' % dq_string(s[:k] + chr(ord(s[k]) + 1) + s[k + 1:]), mkatom('<'))
+        # first difference between characters of different UTF-8 length classes (1/2/3/4 bytes, and both 4-byte lead bytes)
+        c2 = rng.choice([c for c in BOUNDARY_CHARS if c != s[k]])
+        O['compare-other-class'] = ('compare(R, L, %s)' % dq_string(s[:k] + c2 + s[k + 1:]), mkatom('<' if s[k] < c2 else '>'),
+                                    {'byte_len_pair': '%d-%d' % (len(s[k].encode()), len(c2.encode()))})
+        c3 = rng.choice([c for c in BOUNDARY_CHARS if c != s[k]])
+        O['lt-other-class'] = ('( L @< %s -> R = y ; R = n )' % dq_string(s[:k] + c3 + s[k + 1:] + 'q'), mkatom('y' if s[k] < c3 else 'n'),
+                               {'byte_len_pair': '%d-%d' % (len(s[k].encode()), len(c3.encode()))})
         O['head-tail'] = ('L = [H|T], R = H-T', ('c', '-', (mkatom(s[0]), mkstr(s[1:]))))
         O['functor'] = ('functor(L, N, A), R = N/A', ('c', '/', (mkatom('.'), mkint(2))))
         O['arg2'] = ('arg(2, L, R)', mkstr(s[1:]))
